@@ -740,6 +740,12 @@ func ruleR27(c *Ctx) *RuleResult {
 							for _, e2 := range g.Effects {
 								if storeToField(e2, "first") && e2.Args[0].Args[0].String() == "p:0" {
 									storesFirst = true
+									// a new head that the path knows to be non-nil: the list is not empty afterwards
+									for _, a := range g.Guards {
+										if a.Op == "!=" && len(a.Args) == 2 && a.Args[0].String() == "#:nil" && noEpoch(a.Args[1]) == noEpoch(e2.Args[1]) {
+											storesFirst = false
+										}
+									}
 								}
 							}
 							if v.Op == "-" && isListField(v.Args[0], "size") && v.Args[1].String() == "#:1" && storesFirst && !sizeIs(g, "!=", "#:1") && !sizeIs(g, "<", "#:1") {
